@@ -124,6 +124,38 @@ func (c *FromBBE) Define(api frontend.API) error {
 	return nil
 }
 
+// BitSeq: a sequence of bit-encoding gadget calls on SHARED variables inside one circuit (F =
+// FromBinaryBigEndian(In) must equal Val; T = ToReducedBigEndian(Val) must equal In bit by bit), after
+// which the caller's bit string must still be the one it passed (InCopy carries the same witness values).
+type BitSeq struct {
+	In, InCopy []V
+	Val        V
+	Ops        string
+}
+
+func (c *BitSeq) Define(api frontend.API) error {
+	for _, op := range c.Ops {
+		switch op {
+		case 'F':
+			r := abstractor.Call(api, prover.FromBinaryBigEndian{Variable: c.In})
+			api.AssertIsEqual(r, c.Val)
+		case 'T':
+			bits := abstractor.Call1(api, prover.ToReducedBigEndian{Variable: c.Val, Size: len(c.In)})
+			if len(bits) != len(c.In) {
+				api.AssertIsEqual(0, 1)
+				return nil
+			}
+			for i := range bits {
+				api.AssertIsEqual(bits[i], c.In[i])
+			}
+		}
+	}
+	for i := range c.In {
+		api.AssertIsEqual(c.In[i], c.InCopy[i])
+	}
+	return nil
+}
+
 type Pos1 struct{ In, Out V }
 
 func (c *Pos1) Define(api frontend.API) error {
